@@ -274,6 +274,7 @@ def check(ctx):
                              case | {"epoch": ep}, key="fit:gradient-per-step")
                     break
         events = events_ref
+    check_prev_hedge(ctx, torch, g)
     try:
         outs = ctx.driver(reqs)
     except DriverBroken as e:
@@ -293,5 +294,170 @@ def check(ctx):
             ctx.disagree("fit_history", case, None if hist is None else len(hist), mh)
     return ctx.finish(
         rule="k in {0,1,2,3,(7)}, n_paths in {1,4,16}, n_times in {1,2,3}, init state given / default, optimiser class / instance / wrong type "
-             "(SGD, Adam), lazy and materialised models, validation on/off, explicit hedge list, two criteria; non-trivial = k>=1; "
-             "distinct = sha1 of canonical case")
+             "(SGD, Adam), lazy and materialised models, validation on/off, explicit hedge list, two criteria; state-dependent hedgers "
+             "(prev_hedge among the inputs, 3..6 time steps) against a HAND-UNROLLED hedge/wealth/criterion (gradient at every optimiser "
+             "step on the same batch and parameters; parameters after fit vs the explicit loop; relative tolerance 1e-9); "
+             "non-trivial = k>=1; distinct = sha1 of canonical case")
+
+
+# ---------------------------------------------------------------------------------------------------------------------------
+# state-dependent hedgers: the previous hedge is an input of the model.  The reference of the main loop goes through
+# Hedger.compute_portfolio, i.e. through the very recursion whose gradient is in question; here the loss of a batch is written out
+# by hand (no Hedger, no pfhedge.nn.functional.pl): delta_i = model([features at step i, delta_{i-1}]), delta_{-1} = 0, the last
+# position is kept until maturity, wealth = sum_i delta_i (S_{i+1} - S_i) - c S_0 |delta_0| - c sum_i S_{i+1} |delta_{i+1} - delta_i|,
+# loss = criterion(wealth - payoff).  Two differently ordered float64 computations of the same quantity: compared with a relative
+# tolerance of 1e-9 on the max-norm over all parameters (round-off is ~1e-14; a gradient that ignores a path of dependence is off
+# by 1e-3 .. 1e-1)
+
+def hand_loss(torch, model, crit, names, feats, spot, strike, call, cost):
+    N, T = spot.shape
+    prev = spot.new_zeros((N, 1))
+    deltas = []
+    for i in range(T - 1):
+        x = torch.cat([prev if nm == "prev_hedge" else feats[nm][i] for nm in names], dim=-1)      # (N, F)
+        prev = model(x)                                                                            # (N, 1)
+        deltas.append(prev[:, 0])
+    deltas.append(deltas[-1])
+    wealth = spot.new_zeros((N,))
+    for i in range(T - 1):
+        wealth = wealth + deltas[i] * (spot[:, i + 1] - spot[:, i])
+    wealth = wealth - cost * spot[:, 0] * deltas[0].abs()
+    for i in range(T - 1):
+        wealth = wealth - cost * spot[:, i + 1] * (deltas[i + 1] - deltas[i]).abs()
+    payoff = (spot[:, -1] - strike).clamp(min=0) if call else (strike - spot[:, -1]).clamp(min=0)
+    return crit(wealth - payoff)
+
+
+def hand_features(torch, d, names):
+    """the state-INDEPENDENT features of the current batch from pfhedge's feature objects: {name: [(N, 1) tensor per time step]}"""
+    from pfhedge.features import get_feature
+    T = d.ul().spot.size(1)
+    with torch.no_grad():
+        return {nm: [get_feature(nm).of(d).get(i)[:, 0, :].detach().clone() for i in range(T - 1)] for nm in names if nm != "prev_hedge"}
+
+
+def max_rel_diff(xs, ys):
+    """(max |x - y|, max(|x|, |y|)) over two lists of tensors"""
+    diff = max([float((x - y).abs().max()) for x, y in zip(xs, ys) if x.numel()] + [0.0])
+    scale = max([float(x.abs().max()) for x in list(xs) + list(ys) if x.numel()] + [0.0])
+    return diff, scale
+
+
+def check_prev_hedge(ctx, torch, g):
+    import pfhedge.nn as nn
+    import pfhedge.instruments as I
+    from pfhedge.nn import Hedger
+    from pfhedge.nn.modules.loss import OCE
+    dt = torch.float64
+    RTOL = 1e-9
+
+    def exp_utility(x):
+        return 1 - (-x).exp()
+    for it in range(30 if ctx.tier == "quick" else 400):
+        k = g.choice([1, 2, 3])
+        n_paths = g.choice([2, 8, 32])
+        n_steps = g.choice([3, 4, 6])                  # hedging dates: the spot buffer has n_steps + 1 columns
+        n_times = g.choice([1, 2])
+        validation = g.chance(0.5)
+        optkind = g.choice(["cls", "instance"])
+        optname = g.choice(["SGD", "Adam"])
+        lr = g.choice([0.01, 0.1, 0.5]) if optname == "SGD" else 0.01
+        crit_name = g.choice(["erm", "es", "oce"])
+        others = g.r.sample(["moneyness", "log_moneyness", "time_to_maturity"], g.choice([1, 2]))
+        names = others + ["prev_hedge"]
+        g.r.shuffle(names)
+        width = g.choice([2, 4, 8])
+        act = g.choice(["Tanh", "ReLU", "Sigmoid"])
+        gain = g.choice([1.0, 2.0, 4.0])               # weight of the fed-back hedge in the first layer
+        call = g.chance(0.5)
+        strike = g.choice([1.0, 0.95, 1.05])
+        # cost rates exactly representable in single precision: pl() builds torch.tensor(cost) (float32) before casting to the
+        # spot's dtype (DESIGN 'cost rates k*2^-8'), a 6e-8 relative rounding of the rate that is not this property's subject
+        cost = g.choice([0.0, 2.0 ** -10, 2.0 ** -7, 3 * 2.0 ** -9])
+        with_init = g.chance(0.3)
+        seed = g.randint(0, 10 ** 6)
+        case = {"prev_hedge": True, "inputs": names, "epochs": k, "n_paths": n_paths, "n_steps": n_steps, "n_times": n_times,
+                "validation": validation, "opt": optkind, "optimizer": optname, "lr": lr, "criterion": crit_name, "width": width,
+                "activation": act, "prev_hedge_gain": gain, "call": call, "strike": strike, "cost": cost, "with_init": with_init, "seed": seed}
+        ctx.case(case, nontrivial=True, tag="fit_prev_hedge")
+        ctx.traces += 1
+        ctx.stats[f"prev_hedge:opt={optkind}/{optname}"] += 1
+        init_state = (1.25,) if with_init else None
+
+        def build():
+            torch.manual_seed(seed)
+            model = torch.nn.Sequential(torch.nn.Linear(len(names), width, dtype=dt), getattr(torch.nn, act)(),
+                                        torch.nn.Linear(width, 1, dtype=dt))
+            with torch.no_grad():
+                model[0].weight[:, names.index("prev_hedge")] *= gain
+            crit = {"erm": lambda: nn.EntropicRiskMeasure(), "es": lambda: nn.ExpectedShortfall(0.5), "oce": lambda: OCE(exp_utility)}[crit_name]()
+            stock = I.BrownianStock(cost=cost, dtype=dt)
+            d = I.EuropeanOption(stock, call=call, strike=strike, maturity=n_steps / 250)
+            return model, crit, d
+        model, crit, d = build()
+        hedger = Hedger(model, list(names), criterion=crit)
+        base_opt = getattr(torch.optim, optname)
+        steps = []          # per optimiser step of the real fit: (gradient present at the step, hand-unrolled gradient, same batch, same parameters)
+
+        class HandOpt(base_opt):
+            def __init__(self, params):
+                super().__init__(params, lr=lr)
+
+            def step(self, *a, **kw):
+                present = [None if p.grad is None else p.grad.detach().clone() for p in model.parameters()]
+                twin = copy.deepcopy(model)
+                with torch.enable_grad():
+                    loss = hand_loss(torch, twin, crit, names, hand_features(torch, d, names), d.ul().spot.detach(), strike, call, cost)
+                    hand = torch.autograd.grad(loss, list(twin.parameters()), allow_unused=True)
+                steps.append((present, [None if h is None else h.detach() for h in hand], twin.training))
+                return super().step(*a, **kw)
+        opt = HandOpt if optkind == "cls" else HandOpt(model.parameters())
+        torch.manual_seed(seed + 1)
+        st, hist, _ = call_impl(hedger.fit, d, n_epochs=k, n_paths=n_paths, n_times=n_times, optimizer=opt, init_state=init_state,
+                                verbose=False, validation=validation)
+        if st != "ok":
+            ctx.fail("fit raised for a hedger with prev_hedge among its inputs", case, key="fit:prev-hedge:error", detail=hist)
+            continue
+        if len(steps) != k:
+            ctx.fail("fit did not perform exactly one optimiser step per epoch", case, key="fit:steps", detail={"steps": len(steps)})
+            continue
+        # (a) the gradient present at every optimiser step = gradient of the hand-unrolled loss of that batch at those parameters
+        for ep, (present, hand, _) in enumerate(steps):
+            if any(x is None for x in present) or any(x is None for x in hand):
+                ctx.fail("a parameter of the model has no gradient at an optimiser step of fit (hedger with prev_hedge)", case | {"epoch": ep},
+                         key="fit:prev-hedge:gradient-missing")
+                break
+            diff, scale = max_rel_diff(present, hand)
+            ctx.stats["prev_hedge:steps_compared"] += 1
+            if scale > 0 and diff == diff:
+                ctx.extra["prev_hedge_max_rel_gradient_diff"] = max(ctx.extra.get("prev_hedge_max_rel_gradient_diff", 0.0), diff / scale)
+            if not diff <= RTOL * scale:
+                ctx.fail("the gradient applied at an optimiser step of fit is not the gradient of the criterion over that batch: it differs from "
+                         "the gradient of the loss with the hedge unrolled by hand (previous hedge fed back as an input)", case | {"epoch": ep},
+                         key="fit:gradient-per-step:hand-unrolled", detail={"max_abs_diff": diff, "max_abs_gradient": scale})
+                break
+        # (b) parameters after fit = parameters after the explicit simulate / hand-unrolled loss / backward / step loop, same seed
+        model2, crit2, d2 = build()
+        torch.manual_seed(seed + 1)
+        ref_opt = base_opt(model2.parameters(), lr=lr)
+        for ep in range(k):
+            model2.train()
+            ref_opt.zero_grad()
+            d2.simulate(n_paths=n_paths, init_state=init_state)
+            loss = hand_loss(torch, model2, crit2, names, hand_features(torch, d2, names), d2.ul().spot, strike, call, cost)
+            loss.backward()
+            ref_opt.step()
+            if validation:
+                model2.eval()
+                with torch.no_grad():
+                    for _ in range(n_times):
+                        d2.simulate(n_paths=n_paths, init_state=init_state)
+        p1 = [p.detach() for p in model.parameters()]
+        p2 = [p.detach() for p in model2.parameters()]
+        diff, scale = max_rel_diff(p1, p2)
+        if scale > 0 and diff == diff:
+            ctx.extra["prev_hedge_max_rel_parameter_diff"] = max(ctx.extra.get("prev_hedge_max_rel_parameter_diff", 0.0), diff / scale)
+        if not diff <= RTOL * scale:
+            ctx.fail("parameters after fit differ from an explicit simulate/loss/backward/step loop under the same seed whose loss unrolls the "
+                     "hedge by hand (hedger with prev_hedge among its inputs)", case, key="fit:reference-loop:hand-unrolled",
+                     detail={"max_abs_diff": diff, "max_abs_parameter": scale})
